@@ -17,6 +17,7 @@ import (
 	"time"
 
 	"github.com/VKCOM/statshouse/internal/data_model/gen2/tlmetadata"
+	"github.com/VKCOM/statshouse/internal/format"
 	"github.com/VKCOM/statshouse/internal/zzverif/verifkit"
 )
 
@@ -356,6 +357,142 @@ func c15RPCRound(r *verifkit.Run, round, nOps, nSubs int) {
 		r.Count("rpc.journal_events_delivered", int64(events))
 		r.Case(events > 1, fmt.Sprintf("rpc-subscriber|answers%d|long%d|limit%d", min(len(answers[s]), 30), min(longAnswers, 20), limits[s]))
 	}
+	// ---- directed shape: long-poll clients parked at DIFFERENT versions, then a burst of edits that
+	// are all committed before any of their handlers reaches broadcastJournal.  The background
+	// subscribers are gone, so the handler's client map holds exactly the clients parked here.
+	parkedClients := func() int {
+		srv.Handler.getJournalClients.mx.Lock()
+		defer srv.Handler.getJournalClients.mx.Unlock()
+		return len(srv.Handler.getJournalClients.clients)
+	}
+	waitParked := func(n int) bool { // bounded and generous: only guards against a starved harness
+		deadline := time.Now().Add(60 * time.Second)
+		for parkedClients() != n {
+			if time.Now().After(deadline) {
+				return false
+			}
+			time.Sleep(2 * time.Millisecond)
+		}
+		return true
+	}
+	type burstAnswer struct {
+		from int64
+		slot int
+		resp tlmetadata.GetJournalResponsenew
+		err  error
+	}
+	reps := r.N(10, 25)
+	for rep := 0; rep < reps; rep++ {
+		if !waitParked(0) {
+			r.Inconclusive(fmt.Sprintf("rpc round %d: long-poll clients of the previous repetition did not leave the handler within 60 s", round))
+			break
+		}
+		burst := 2 + rnd.IntN(3)   // edits committed before the first broadcast
+		clients := 2 + rnd.IntN(4) // parked long polls
+		slots := make([]int, clients)
+		for i := range slots {
+			slots[i] = rnd.IntN(burst) // parked after this many commits: lags behind the rest of the burst
+		}
+		slots[0], slots[1] = 0, 1+rnd.IntN(burst-1) // at least two different versions
+		bctx, cancel := context.WithCancel(context.Background())
+		answers := make(chan burstAnswer, clients)
+		parked, starved := 0, false
+		var burstLog []string
+		for j := 0; j < burst && !starved; j++ {
+			for i, sl := range slots {
+				if sl != j {
+					continue
+				}
+				from := m.maxVer
+				go func(i, sl int) {
+					a := burstAnswer{from: from, slot: sl}
+					a.err = cl.GetJournalnew(bctx, tlmetadata.GetJournalnew{From: from, Limit: 1000}, nil, &a.resp)
+					answers <- a
+				}(i, sl)
+				parked++
+				burstLog = append(burstLog, fmt.Sprintf("client %d parks from version %d", i, from))
+			}
+			if !waitParked(parked) {
+				starved = true
+				break
+			}
+			// one edit of the burst: committed, its handler has not broadcast yet
+			name := fmt.Sprintf("burst-%d-%d-%d", round, rep, j)
+			ev, err := db.SaveEntity(ctx, name, 0, 0, fmt.Sprintf(`{"burst":%d}`, j), true, 0, format.DashboardEvent, "burst")
+			if err != nil {
+				viol("burst/save-error", err.Error(), nil)
+				starved = true
+				break
+			}
+			m.apply(mdkSaveOp{Name: name, Data: fmt.Sprintf(`{"burst":%d}`, j), Create: true, Typ: format.DashboardEvent, Meta: "burst", Class: "burst-create"}, ev, true)
+			burstLog = append(burstLog, fmt.Sprintf("commit %q -> version %d (no broadcast yet)", name, ev.Version))
+		}
+		if starved {
+			cancel()
+			for i := 0; i < parked; i++ {
+				<-answers
+			}
+			r.Inconclusive(fmt.Sprintf("rpc round %d: directed burst could not park its long-poll clients within 60 s", round))
+			break
+		}
+		for j := 0; j < burst; j++ {
+			srv.Handler.broadcastJournal() // now the handlers of the burst reach their broadcast
+		}
+		current := m.maxVer
+		timeout := time.After(60 * time.Second)
+		for i := 0; i < parked; i++ {
+			var a burstAnswer
+			select {
+			case a = <-answers:
+			case <-timeout:
+				r.Inconclusive(fmt.Sprintf("rpc round %d: a parked long-poll client got no answer within 60 s after the broadcast", round))
+				cancel()
+				i = parked
+				continue
+			}
+			r.Count("rpc.burst_answers", 1)
+			if a.err != nil {
+				viol("burst/journal-error", a.err.Error(), map[string]any{"burst": burstLog})
+				continue
+			}
+			got := map[int64]bool{}
+			last := a.from
+			for _, e := range a.resp.Events {
+				if e.Version <= last {
+					viol("journal/order", fmt.Sprintf("burst answer for a client parked at version %d contains version %d after %d", a.from, e.Version, last), map[string]any{"burst": burstLog})
+				}
+				last = e.Version
+				got[e.Version] = true
+				if h := m.hist[e.Id]; len(h) == 0 || h[len(h)-1].Ver != e.Version || h[len(h)-1].Name != e.Name || h[len(h)-1].Data != e.Data {
+					viol("journal/content", fmt.Sprintf("burst answer delivers entity %d version %d which is not the accepted latest version", e.Id, e.Version), map[string]any{"burst": burstLog})
+				}
+			}
+			// the clause: everything accepted with From < version <= CurrentVersion is in the answer
+			var missing []int64
+			for _, id := range m.sortedIDs() {
+				if v := m.ents[id].Ver; v > a.from && v <= a.resp.CurrentVersion && !got[v] {
+					missing = append(missing, v)
+				}
+			}
+			if len(missing) > 0 {
+				var vs []int64
+				for _, e := range a.resp.Events {
+					vs = append(vs, e.Version)
+				}
+				viol("journal/gap-below-current-version", fmt.Sprintf("a long-poll client parked at version %d was answered with versions %v and CurrentVersion %d: accepted versions %v are missing, and a client that continues from CurrentVersion never receives them", a.from, vs, a.resp.CurrentVersion, missing), map[string]any{"burst": burstLog, "clients_parked": parked, "edits_in_burst": burst})
+			}
+			if a.resp.CurrentVersion < current {
+				r.Count("rpc.burst_answers_partial", 1)
+			}
+			r.Case(true, fmt.Sprintf("rpc-burst|lag%d|burst%d|clients%d|events%d", burst-a.slot, burst, min(parked, 5), len(a.resp.Events)))
+		}
+		cancel()
+		r.Count("rpc.burst_repetitions", 1)
+		if rep < 2 {
+			log = append(log, burstLog...)
+		}
+	}
+
 	if r.WantSample() {
 		l := log
 		if len(l) > 12 {
@@ -371,7 +508,7 @@ func TestVerifC15RPC(t *testing.T) {
 	mdkAssumeSQLite(r)
 	r.Assume("long polls that are cancelled by the harness at the end of a round are not answers; liveness of the long poll itself is not judged")
 	r.Assume("an empty journal page while the table holds a larger version is judged only when persistent (the same request repeated >= 5 times over >= 2 s of real time, through RPC and through DBV2.JournalEvents, stays empty); one that recovers is counted NotJudged (transient_empty_journal_page) and logged with diagnostics")
-	r.SetRule("rounds over a fresh database behind the real rpc.Server: 50 (quick) / 120 (thorough) generated entity requests through tlmetadata.Client.EditEntitynew, judged by the reference model; 3 subscriber goroutines follow the journal with long polls (limits 1/2/3/1000) and catch up at the end; GetEntity / GetHistoryShortInfo read-backs. One case = one judged RPC answer, read-back or subscriber stream. Non-trivial = accepted or refused-after-accepted request / entity with ≥2 versions / stream with ≥2 events.")
+	r.SetRule("rounds over a fresh database behind the real rpc.Server: 50 (quick) / 120 (thorough) generated entity requests through tlmetadata.Client.EditEntitynew, judged by the reference model; 3 subscriber goroutines follow the journal with long polls (limits 1/2/3/1000) and catch up at the end; then 10 (quick) / 25 (thorough) directed bursts per round: 2–5 long-poll clients parked at different versions (lagging by one or several edits), 2–4 edits committed before the first broadcast, every answer checked for accepted versions missing below its CurrentVersion; GetEntity / GetHistoryShortInfo read-backs. One case = one judged RPC answer, read-back or subscriber stream. Non-trivial = accepted or refused-after-accepted request / entity with ≥2 versions / stream with ≥2 events.")
 	rounds := r.N(12, 60)
 	nOps := r.N(50, 120)
 	for i := 0; i < rounds; i++ {
